@@ -28,6 +28,8 @@ CFG = {
         "Leptos.Park.Graph.C19_graph_torn_read_witness",
         "Leptos.Park.Graph.C19_derived_needs_rerun_atomic",
         "Leptos.Park.Graph.C19_derived_dirty_during_check",
+        "Leptos.Park.Graph.C19_effect_check_keeps_mark",
+        "Leptos.Park.Graph.C19_effect_dirty_during_check",
         "Leptos.Park.Graph.C19_graph_no_lock_across_notify",
         "Leptos.Park.Graph.C19_graph_deadlock_free",
         "Leptos.Park.Graph.holdsOk_exec",
@@ -42,7 +44,7 @@ CFG = {
     ],
     "harness_pkg": "hx-c19",
     "harness_bin": "c19",
-    "n": {"quick": 12500, "thorough": 100000},
+    "n": {"quick": 13500, "thorough": 110000},
     "exhaustive": {"quick": False, "thorough": False},
     "trivial_tags": ["plain"],
     "rule": "a case = one scenario + one interleaving (list of thread ids) replayed on real OS threads driven in lock-step through the "
@@ -54,7 +56,10 @@ CFG = {
             "incl. memo:cleared/memo:unlocked and at sources:clearing; 3-thread notify_subs (250 / 3000 random); single-thread ImmediateEffect on a memo / chain / diamond (42 programs); "
             "the await path across RELOADS with 2-3 awaiters and late re-polls (`awaitr`, 900 / 12000 random schedules over 6 configurations, all three future kinds); "
             "an async derived over a memo source + a directly read signal, its task pre-empted inside needs_rerun's source check at the memo:* points while other threads "
-            "write either signal / read the memos (`derived`, 800 / 12000 random schedules over 8 shapes x programs, final value = from-scratch); thorough adds "
+            "write either signal / read the memos (`derived`, 800 / 12000 random schedules over 8 shapes x programs, final value = from-scratch); the same for an `Effect::new` task "
+            "(`effect`, 800 / 12000, last logged value = from-scratch); bounded real-thread STRESS ops, labelled testing, for which the model answers the constant expected "
+            "outcome: `stress subs` (two threads re-run memos on one signal next to an idle third subscriber, every round all three must be notified; 5 x 60000 + 100000 rounds, "
+            "20 x 200000 thorough) and `stress writes` (2-3 threads incrementing through each of the 8 write-handle families, no increment lost; 16 x 30000 / 200000); thorough adds "
             "await value/ref with 2 awaiters (2 x 4200) and channel 2x2 notifies (34650); the rest are seeded random schedules over larger configurations "
             "(up to 3 awaiters / 3 senders / 2 memo threads with 1-3 ops) and a few free-running effect stress runs (testing only, watchdog); "
             "distinct = distinct op line; every case is non-trivial (tags = scenario family)",
